@@ -8,7 +8,7 @@ from .c01 import W2
 from .c02 import pool
 
 UN_POOLS = {"U2": lambda: G.fa_cases(2, 2, 0, 12), "U3": lambda: G.fa_cases(3, 2, 0, 3), "U3_2": lambda: G.fa_cases(3, 2, 0, 2),
-            "U3_4": lambda: G.fa_cases(3, 2, 4, 4), "U41": lambda: G.fa_cases(4, 1, 0, 4)}
+            "U3_4": lambda: G.fa_cases(3, 2, 4, 4), "U41": lambda: G.fa_cases(4, 1, 0, 3)}
 
 
 def ref_concat(A, B):
@@ -88,17 +88,17 @@ class C03(Prop):
         return [Layer("unary FA(2,2,<=12)", lambda: self.un_cases("U2"), rep=rep_un_s),
                 Layer("unary FA(3,2,<=3)", lambda: self.un_cases("U3"), rep=rep_un_s),
                 Layer("unary FA(3,2,4)", lambda: self.un_cases("U3_4"), rep=rep_un, policies=few),
-                Layer("unary FA(4,1,<=4)", lambda: self.un_cases("U41"), rep=rep_un, policies=few),
-                Layer("boolean P2xP2", lambda: self.bin_cases("bool", "P2", "P2"), policies=few),
-                Layer("boolean P2xP2{b,c}", lambda: self.bin_cases("bool", "P2", "P2", ("b", "c")), policies=few),
+                Layer("unary FA(4,1,<=3)", lambda: self.un_cases("U41"), rep=rep_un, policies=few[:3]),
+                Layer("boolean P2xP2", lambda: self.bin_cases("bool", "P2", "P2"), policies=few[:3]),
+                Layer("boolean P2xP2{b,c}", lambda: self.bin_cases("bool", "P2", "P2", ("b", "c")), policies=few[:2]),
                 Layer("rational P2xP1", lambda: self.bin_cases("rat", "P2", "P1"), policies=few[:3]),
                 Layer("rational P1xP2{b,c}", lambda: self.bin_cases("rat", "P1", "P2", ("b", "c")), policies=few[:3])]
 
     def default_policies(self, tier, seed):
         if tier == "quick":
             return ["natural@int", "natural@str", "1@int", "2@str", "s%d@int" % seed]
-        return ["natural@int", "natural@str"] + ["%d@%s" % (i, "int" if i % 2 else "str") for i in range(1, 9)] + \
-               ["s%d@int" % (seed * 7 + 1), "s%d@str" % (seed * 7 + 2)]
+        return ["natural@int", "natural@str"] + ["%d@%s" % (i, "int" if i % 2 else "str") for i in range(1, 6)] + \
+               ["s%d@int" % (seed * 7 + 1)]
 
     def resolve(self, case):
         if case[0] == "un":
